@@ -4,6 +4,11 @@ From PV Require Import Bytes C28.
 Import ListNotations.
 Open Scope Z_scope.
 
+Definition same_file (s s' : state) : Prop :=
+  realpos s' = realpos s /\ pos s' = pos s /\ rbuffer s' = rbuffer s.
+
+Ltac ssplit := unfold same_file in |- *; repeat match goal with |- _ /\ _ => split end.
+
 (* ---- ztake / zdrop / slice ------------------------------------------------------------- *)
 Lemma zlen_nonneg {A} (l : list A) : 0 <= zlen l.
 Proof. unfold zlen. lia. Qed.
@@ -215,9 +220,6 @@ Definition inv (s : state) : Prop := buf_ok (data s) /\ wire_ok s.
 Definition lab_ok (l : label) : Prop :=
   match l with LDeliver _ k f => 1 <= k /\ f = false | _ => True end.
 
-Definition same_file (s s' : state) : Prop :=
-  realpos s' = realpos s /\ pos s' = pos s /\ rbuffer s' = rbuffer s.
-
 Lemma remove_nth_in {A} i (l : list A) x : In x (remove_nth i l) -> In x l.
 Proof.
   revert i. induction l as [|h t IH]; intros [|i]; cbn; auto.
@@ -255,7 +257,7 @@ Proof.
     destruct ((cap =? 0) || (zlen (extents s) <? cap)); [|discriminate].
     injection Hs as <-. apply nth_error_In in En.
     destruct (w_unsent s Hw _ _ _ En) as [Ho Hn].
-    split; [|repeat split; auto]. split; [exact Hb|].
+    split; [|ssplit; auto]. split; [exact Hb|].
     constructor; cbn.
     + intros num c H. apply in_app_or in H as [H|[H|[]]].
       * pose proof (w_inf_lt s Hw _ _ H). lia.
@@ -279,7 +281,7 @@ Proof.
   - (* register *)
     destruct (nth_error (pending s) i) as [[num c]|] eqn:En; [|discriminate].
     injection Hs as <-. apply nth_error_In in En.
-    split; [|repeat split; auto]. split; [exact Hb|].
+    split; [|ssplit; auto]. split; [exact Hb|].
     constructor; cbn.
     + exact (w_inf_lt s Hw).
     + intros x c'. rewrite dget_set. destruct (x =? num) eqn:E.
@@ -308,11 +310,11 @@ Proof.
     + unfold server_read; cbn. destruct (zlen file <=? o) eqn:El; [exact Hb|].
       apply buf_ok_set; [exact Hb|]. apply valid_slice; lia.
     + apply deliver_wire. exact Hw.
-    + unfold server_read; cbn. destruct (zlen file <=? o); repeat split; cbn; auto.
+    + unfold server_read; cbn. destruct (zlen file <=? o); ssplit; cbn; auto.
 Qed.
 
 Lemma same_file_refl s : same_file s s.
-Proof. repeat split. Qed.
+Proof. unfold same_file. auto. Qed.
 Lemma same_file_trans a b c : same_file a b -> same_file b c -> same_file a c.
 Proof. unfold same_file. intuition congruence. Qed.
 
@@ -323,13 +325,12 @@ Lemma run_env_inv sched : forall s,
   (saved s = false -> saved (run_env file sched s) = false).
 Proof.
   induction sched as [|l r IH]; intros s Hi Hl; cbn.
-  - repeat split; auto.
+  - ssplit; auto.
   - inversion Hl as [|? ? Hl1 Hl2]; subst.
     destruct (env_step file s l) as [s'|] eqn:E; [|now apply IH].
     destruct (env_step_inv _ _ _ Hi Hl1 E) as (Hi' & Hsf & Hp & Hsv).
     destruct (IH s' Hi' Hl2) as (A & B & C & D).
-    repeat split; try (destruct Hsf as (? & ? & ?); destruct B as (? & ? & ?); congruence); auto.
-    congruence.
+    ssplit; auto; try (destruct Hsf as (? & ? & ?); destruct B as (? & ? & ?); congruence).
 Qed.
 
 (* ---- the wait loop ------------------------------------------------------------------------------ *)
@@ -342,20 +343,20 @@ Lemma wait_loop_inv sched : forall s s1 w,
 Proof.
   induction sched as [|l r IH]; intros s s1 w Hi Hsv Hl; cbn.
   - destruct (data_in_buffers (data s) (realpos s)) as [idx|] eqn:Ed.
-    + intros H. injection H as <- <-. repeat split; auto; try discriminate.
+    + intros H. injection H as <- <-. ssplit; auto; try discriminate.
       intros i H. injection H as <-. exact Ed.
-    + destruct (pdone s); intros H; injection H as <- <-; repeat split; auto; discriminate.
+    + destruct (pdone s); intros H; injection H as <- <-; ssplit; auto; discriminate.
   - inversion Hl as [|? ? Hl1 Hl2]; subst.
     destruct (data_in_buffers (data s) (realpos s)) as [idx|] eqn:Ed.
-    + intros H. injection H as <- <-. repeat split; auto; try discriminate.
+    + intros H. injection H as <- <-. ssplit; auto; try discriminate.
       intros i H. injection H as <-. exact Ed.
     + destruct (pdone s).
-      * intros H; injection H as <- <-; repeat split; auto; discriminate.
+      * intros H; injection H as <- <-; ssplit; auto; discriminate.
       * destruct (env_step file s l) as [s'|] eqn:E; [|now apply IH].
         destruct (env_step_inv _ _ _ Hi Hl1 E) as (Hi' & Hsf & Hp & Hsv').
         rewrite (Hsv' Hsv), andb_false_r. intros H.
         destruct (IH _ _ _ Hi' (Hsv' Hsv) Hl2 H) as (A & B & C & D & F & G).
-        repeat split; auto; try congruence.
+        ssplit; auto; try congruence.
         all: destruct Hsf as (? & ? & ?); destruct B as (? & ? & ?); congruence.
 Qed.
 
@@ -369,6 +370,14 @@ Lemma set_prefetching_wire s b : wire_ok s -> wire_ok (set_prefetching s b).
 Proof. intros [A B C D E F G]. constructor; cbn; assumption. Qed.
 Lemma set_file_wire s a b c : wire_ok s -> wire_ok (set_file s a b c).
 Proof. intros [A B C D E F G]. constructor; cbn; assumption. Qed.
+
+Lemma bump_inv s : inv s -> inv (bump s).
+Proof.
+  intros [A [B1 B2 B3 B4 B5 B6 B7]]. split; [exact A|]. constructor; cbn; auto.
+  - intros num c H. specialize (B1 _ _ H). lia.
+  - intros num c H. specialize (B2 _ _ H). lia.
+  - intros num c H. specialize (B3 _ _ H). lia.
+Qed.
 
 Lemma read_prefetch_ok sched s size s1 r :
   inv s -> saved s = false -> Forall lab_ok sched -> 1 <= size ->
@@ -405,7 +414,7 @@ Proof.
       apply buf_ok_set; [exact Hb2|].
       replace (realpos s0 + size) with (realpos s0 + Z.min size (zlen p2)) by lia.
       apply valid_drop; [assumption|lia].
-    + repeat split; cbn; congruence.
+    + ssplit; cbn; congruence.
     + cbn. assumption.
     + rewrite <- Hrp. destruct (size <? zlen p2) eqn:E.
       * split; [|split].
@@ -415,10 +424,9 @@ Proof.
       * split; [|split; [assumption|lia]].
         intros Hn. apply zlen_nil_iff in Hn. lia.
   - intros H. injection H as <- <-. split; [|split; [|split]]; auto.
-    + split; [exact Hb|now apply set_prefetching_wire].
-    + destruct Hsf as (? & ? & ?). repeat split; cbn; assumption.
+    split; [exact Hb|now apply set_prefetching_wire].
   - congruence.
-  - intros H. injection H as <- <-. repeat split; auto; apply Hsf.
+  - intros H. injection H as <- <-. split; [split; assumption|]. split; [exact Hsf|]. auto.
 Qed.
 
 Lemma sread_ok maxreq o s size0 s1 r :
@@ -443,25 +451,26 @@ Proof.
                | RdEof | RdRaise => False
                end).
   { destruct (prefetching s).
-    - eapply read_prefetch_ok; eauto. lia.
-    - injection E as <- <-. repeat split; auto. }
+    - apply (read_prefetch_ok (o_wait o) s size s0 r0 Hi Hsv Hw ltac:(lia) E).
+    - injection E as <- <-. ssplit; auto. }
   destruct H0 as (Hi0 & Hsf0 & Hsv0 & Hr0).
   destruct r0 as [d| | | |]; try contradiction.
-  - intros H. injection H as <- <-. repeat split; auto; try apply Hsf0; try apply Hr0.
+  - intros H. injection H as <- <-. ssplit; auto; try apply Hsf0; try apply Hr0.
     destruct Hr0 as (_ & _ & ?). lia.
-  - destruct (run_env_inv (o_sync o) s0 Hi0 Hs) as (Hi2 & Hsf2 & _ & Hsv2).
-    pose proof (same_file_trans _ _ _ Hsf0 Hsf2) as Hsf.
-    assert (Hrp2 : realpos (run_env file (o_sync o) s0) = realpos s) by apply Hsf.
+  - destruct (run_env_inv (o_sync o) (bump s0) (bump_inv _ Hi0) Hs) as (Hi2 & Hsf2 & _ & Hsv2).
+    assert (Hsfb : same_file s0 (bump s0)) by (unfold same_file; auto).
+    pose proof (same_file_trans _ _ _ Hsf0 (same_file_trans _ _ _ Hsfb Hsf2)) as Hsf.
+    assert (Hrp2 : realpos (run_env file (o_sync o) (bump s0)) = realpos s) by apply Hsf.
     rewrite Hrp2, Hf. unfold server_read. cbn [andb].
     destruct (zlen file <=? realpos s) eqn:El; intros H; injection H as <- <-.
-    + repeat split; auto; try apply Hsf. lia.
+    + ssplit; auto; try apply Hsf. lia.
     + split; [assumption|]. split; [assumption|]. split; [auto|].
       split; [|split].
       * intros Hn. apply zlen_nil_iff in Hn. unfold slice in Hn.
         rewrite zlen_ztake, zlen_zdrop in Hn by lia. lia.
       * apply valid_slice; lia.
       * unfold slice. rewrite zlen_ztake by lia. lia.
-  - intros H. injection H as <- <-. repeat split; auto; apply Hsf0.
+  - intros H. injection H as <- <-. ssplit; auto; apply Hsf0.
 Qed.
 
 (* ---- BufferedFile.read ------------------------------------------------------------------------- *)
@@ -479,28 +488,29 @@ Lemma read_loop_ok maxreq bufsize orcs : forall s size s1 st,
   end.
 Proof.
   induction orcs as [|o r IH]; intros s size s1 st Hi Hsv Hrb Ho Hm; cbn.
-  - destruct (size <=? zlen (rbuffer s)) eqn:E; intros H; injection H as <- <-; repeat split; auto;
+  - destruct (size <=? zlen (rbuffer s)) eqn:E; intros H; injection H as <- <-; ssplit; auto;
       try apply Hrb. left; lia.
   - destruct (size <=? zlen (rbuffer s)) eqn:E.
-    { intros H; injection H as <- <-; repeat split; auto; try apply Hrb. left; lia. }
+    { intros H; injection H as <- <-; ssplit; auto; try apply Hrb. left; lia. }
     inversion Ho as [|? ? Ho1 Ho2]; subst.
     set (rs := if 0 <? bufsize then Z.max bufsize (size - zlen (rbuffer s)) else size - zlen (rbuffer s)).
     assert (Hrs : 1 <= rs) by (unfold rs; destruct (0 <? bufsize); lia).
     destruct (sread file maxreq o s rs) as [s0 r0] eqn:Es.
     destruct Hrb as (Hv & Hrp & Hps).
-    pose proof (zlen_nonneg (rbuffer s)).
+    pose proof (zlen_nonneg (rbuffer s)) as Hnn.
     destruct (sread_ok _ _ _ _ _ _ Hi Hsv Ho1 Hrs Hm ltac:(lia) Es) as (Hi0 & (Hrp0 & Hps0 & Hrb0) & Hsv0 & Hr).
     assert (Hrbok0 : rb_ok s0) by (unfold rb_ok; rewrite Hrp0, Hps0, Hrb0; auto).
     destruct r0 as [d| | | |]; try contradiction.
     + destruct Hr as (Hne & Hvd & _).
       destruct d as [|x d']; [congruence|]. cbn [is_nil].
       intros H. apply IH in H; auto.
-      * destruct H as (A & B & C & D & F). repeat split; auto; try apply C. cbn in D. congruence.
+      * destruct H as (A & B & C & D & F). ssplit; auto; try apply C. cbn in D. congruence.
       * destruct Hi0 as [Hb0 Hw0]. split; [exact Hb0|now apply set_file_wire].
-      * unfold rb_ok. cbn. rewrite Hps0, Hrb0, Hrp0. split; [|split; [rewrite zlen_app; lia|lia]].
+      * unfold rb_ok. cbn [pos realpos rbuffer set_file]. rewrite Hps0, Hrb0, Hrp0, zlen_app.
+        split; [|lia].
         apply valid_app; [assumption|]. now rewrite <- Hrp.
-    + intros H; injection H as <- <-. repeat split; auto; try apply Hrbok0. right. lia.
-    + intros H; injection H as <- <-. repeat split; auto; apply Hrbok0.
+    + intros H; injection H as <- <-. ssplit; auto; try apply Hrbok0. right. lia.
+    + intros H; injection H as <- <-. ssplit; auto; apply Hrbok0.
 Qed.
 
 Lemma take_is_slice p rb size :
@@ -547,7 +557,7 @@ Qed.
 Lemma seek_ok s o : inv s -> 0 <= o -> inv (seek s o) /\ rb_ok (seek s o) /\ pos (seek s o) = o /\ saved (seek s o) = saved s.
 Proof.
   intros [A B] Ho. split; [split; [exact A|now apply set_file_wire]|].
-  unfold rb_ok. cbn. repeat split; auto; try lia. now left.
+  unfold rb_ok. cbn. ssplit; auto; try lia. now left.
 Qed.
 
 Definition chunks_pos (cs : list (Z * Z)) : Prop := Forall (fun c => 0 <= fst c /\ 1 <= snd c) cs.
@@ -557,8 +567,8 @@ Lemma start_prefetch_ok s cs cap :
   inv (start_prefetch s cs cap) /\ same_file s (start_prefetch s cs cap) /\
   saved (start_prefetch s cs cap) = saved s.
 Proof.
-  intros [A B] Hc. unfold start_prefetch. destruct (is_nil cs); [repeat split; auto|].
-  split; [|repeat split]. split; [exact A|].
+  intros Hi Hc. unfold start_prefetch. destruct (is_nil cs); [ssplit; auto|].
+  destruct Hi as [A B]. split; [|ssplit; reflexivity]. split; [exact A|].
   destruct B as [B1 B2 B3 B4 B5 B6 B7]. constructor; cbn; auto.
   intros o n cap' H. apply in_app_or in H as [H|H]; [eauto|].
   apply in_map_iff in H as ([o' n'] & He & Hin). injection He as <- <- <-.
@@ -583,11 +593,10 @@ Lemma readv_plan_pos maxreq d e : forall cs rc,
   1 <= maxreq -> Forall (fun c => 0 <= fst c) cs ->
   readv_plan maxreq d e cs = Some rc -> chunks_pos rc /\ Forall (fun c => snd c <= maxreq) rc.
 Proof.
-  induction cs as [|[o n] r IH]; intros rc Hm Hc; cbn.
+  induction cs as [|[o n] r IH]; intros rc Hm Hc; cbn [readv_plan].
   - intros H. injection H as <-. split; constructor.
   - inversion Hc as [|? ? H1 H2]; subst. cbn in H1.
-    destruct (if match data_in_buffers d o with Some idx => negb (idx =? 0) | None => false end
-              then Some true else data_in_requests (S (length e)) e o n) as [[|]|]; [| |discriminate].
+    match goal with |- match ?X with _ => _ end = _ -> _ => destruct X as [[|]|] end; [| |discriminate].
     + now apply IH.
     + destruct (readv_plan maxreq d e r) as [rest|]; [|discriminate].
       intros H. injection H as <-. destruct (IH rest Hm H2 eq_refl) as [A B]. split.
@@ -612,7 +621,7 @@ Lemma readv_reads_ok maxreq bufsize : forall chunks orcss s s1 outs,
   inv s1 /\ saved s1 = false /\ Forall2 chunk_result chunks outs.
 Proof.
   induction chunks as [|[o n] r IH]; intros orcss s s1 outs Hi Hsv Hm Hc Ho; cbn.
-  - intros H. injection H as <- <-. repeat split; auto.
+  - intros H. injection H as <- <-. ssplit; auto.
   - inversion Hc as [|? ? [Hc1 Hc1'] Hc2]; subst. cbn in Hc1, Hc1'.
     destruct (seek_ok s o Hi Hc1) as (Hi1 & Hrb1 & Hp1 & Hsv1).
     set (orcs := match orcss with x :: _ => x | [] => [] end).
@@ -623,7 +632,7 @@ Proof.
     destruct (readv_reads file maxreq bufsize (tl orcss) s2 r) as [s3 outs'] eqn:Er.
     intros H. injection H as <- <-.
     destruct (IH _ _ _ _ Hi2 Hsv2 Hm Hc2 Htl Er) as (A & B & C).
-    repeat split; auto. constructor; [|exact C].
+    ssplit; auto. constructor; [|exact C].
     unfold chunk_result. cbn. destruct Hout as [->|[-> _]]; [now right|left]. now rewrite Hp1.
 Qed.
 
@@ -665,19 +674,6 @@ Definition do_action (file : list Z) (s : state) (a : action) : option state :=
 Definition good (file : list Z) (s : state) : Prop :=
   inv file s /\ rb_ok file s /\ saved s = false.
 
-Lemma env_step_rb file s l s' : env_step file s l = Some s' -> same_file s s'.
-Proof.
-  destruct l as [i|i|i k f]; cbn.
-  - destruct (nth_error (unsent s) i) as [[[o n] cap]|]; [|discriminate].
-    destruct ((cap =? 0) || (zlen (extents s) <? cap)); [|discriminate].
-    intros H; injection H as <-. repeat split.
-  - destruct (nth_error (pending s) i) as [[num c]|]; [|discriminate].
-    intros H; injection H as <-. repeat split.
-  - destruct (nth_error (inflight s) i) as [[num [o n]]|]; [|discriminate].
-    destruct (async_response _ _ _ _ _ _) as [[[[d e] dn] sv]|]; [|discriminate].
-    intros H; injection H as <-. repeat split.
-Qed.
-
 Lemma rb_ok_same file s s' : same_file s s' -> rb_ok file s -> rb_ok file s'.
 Proof. intros (A & B & C) (D & E & F). unfold rb_ok. rewrite A, B, C. auto. Qed.
 
@@ -699,10 +695,10 @@ Proof.
   - intros H. injection H as <-. destruct (seek_ok file s o Hi Ha) as (A & B & _ & D).
     split; [exact A|]. split; [exact B|congruence].
   - intros H. injection H as <-. unfold prefetch.
-    destruct Hrb as (Hv & Hrp & Hps). pose proof (zlen_nonneg (rbuffer s)).
+    pose proof Hrb as (Hv & Hrp & Hps). pose proof (zlen_nonneg (rbuffer s)).
     match goal with |- good _ (start_prefetch _ ?cs _) =>
       destruct (start_prefetch_ok file s cs cap Hi ltac:(apply prefetch_chunks_pos; lia)) as (A & B & C) end.
-    split; [exact A|]. split; [eapply rb_ok_same; eauto; repeat split; auto|congruence].
+    split; [exact A|]. split; [eapply rb_ok_same; eauto|congruence].
   - destruct Ha as (Ho & Hm & Hc). unfold readv.
     destruct (readv_plan maxreq (data s) (extents s) chunks) as [rc|] eqn:Ep; [|discriminate].
     destruct (readv_plan_pos _ _ _ _ _ Hm ltac:(eapply Forall_impl; [|exact Hc]; cbn; tauto) Ep) as [Hrc _].
@@ -783,7 +779,7 @@ Proof.
   intros (Hi & (Hv & Hrp & Hps) & Hsv) Ho Hs Hm E.
   pose proof (zlen_nonneg (rbuffer s)).
   destruct (sread_ok _ _ _ _ _ _ _ Hi Hsv Ho Hs Hm ltac:(lia) E) as (_ & _ & _ & Hr).
-  destruct r; auto. destruct Hr as (A & B & C). repeat split; auto. now apply valid_is_slice.
+  destruct r; auto. destruct Hr as (A & B & C). ssplit; auto. now apply valid_is_slice.
 Qed.
 
 Lemma read_buffered file maxreq bufsize orcs s size s1 out :
@@ -828,4 +824,77 @@ Proof.
   intros Hm Hc E. destruct (readv_plan_pos _ _ _ _ _ Hm Hc E) as [A B].
   unfold chunks_pos in A. rewrite Forall_forall in *. intros c Hin.
   specialize (A c Hin). specialize (B c Hin). lia.
+Qed.
+
+(* ---- termination (partial) ------------------------------------------------------------------------ *)
+Definition measure (s : state) : nat := 3 * length (unsent s) + length (pending s) + length (inflight s).
+
+Lemma remove_nth_length {A} i : forall (l : list A) x,
+  nth_error l i = Some x -> S (length (remove_nth i l)) = length l.
+Proof.
+  induction i as [|i IH]; intros [|h t] x; cbn; try discriminate; auto.
+  intros H. now rewrite (IH t x H).
+Qed.
+
+Lemma env_step_measure file s l s' : env_step file s l = Some s' -> (measure s' < measure s)%nat.
+Proof.
+  destruct l as [i|i|i k f]; cbn [env_step].
+  - destruct (nth_error (unsent s) i) as [[[o n] cap]|] eqn:E; [|discriminate].
+    destruct ((cap =? 0) || (zlen (extents s) <? cap)); [|discriminate].
+    intros H. injection H as <-. unfold measure. cbn. rewrite !app_length. cbn.
+    pose proof (remove_nth_length _ _ _ E). lia.
+  - destruct (nth_error (pending s) i) as [[num c]|] eqn:E; [|discriminate].
+    intros H. injection H as <-. unfold measure. cbn.
+    pose proof (remove_nth_length _ _ _ E). lia.
+  - destruct (nth_error (inflight s) i) as [[num [o n]]|] eqn:E; [|discriminate].
+    destruct (async_response _ _ _ _ _ _) as [[[[d e] dn] sv]|]; [|discriminate].
+    intros H. injection H as <-. unfold measure. cbn.
+    pose proof (remove_nth_length _ _ _ E). lia.
+Qed.
+
+Lemma dget_del_same {V} (d : dict V) k : dget (ddel d k) k = None.
+Proof.
+  induction d as [|[k' v'] r IH]; cbn; [reflexivity|].
+  destruct (k' =? k) eqn:E; [exact IH|]. cbn. now rewrite E.
+Qed.
+
+Lemma async_releases d e dn sv num r d' e' dn' sv' :
+  async_response d e dn sv num r = Some (d', e', dn', sv') ->
+  dget e' num = None /\ (e' = [] -> dn' = true) /\ (length e' <= length e)%nat.
+Proof.
+  unfold async_response. destruct (dget e num) as [[off len]|]; [|discriminate].
+  intros H. injection H as <- <- <- <-. split; [apply dget_del_same|]. split.
+  - intros ->. reflexivity.
+  - clear. induction e as [|[k v] t IH]; cbn; [lia|]. destruct (k =? num); cbn; lia.
+Qed.
+
+Lemma wait_done_never_blocks file sched s : pdone s = true -> snd (wait_loop file sched s) <> WBlocked.
+Proof.
+  intros H. destruct sched; cbn; destruct (data_in_buffers (data s) (realpos s)); rewrite ?H; cbn; discriminate.
+Qed.
+
+Lemma start_prefetch_work s cs cap :
+  pdone (start_prefetch s cs cap) = false -> pdone s = false \/ unsent (start_prefetch s cs cap) <> [].
+Proof.
+  unfold start_prefetch. destruct cs as [|c r]; cbn; [now left|].
+  intros _. right. intros H. apply app_eq_nil in H as [_ H]. discriminate.
+Qed.
+
+Lemma env_idle file s l : unsent s = [] -> pending s = [] -> inflight s = [] -> env_step file s l = None.
+Proof. intros A B C. destruct l as [i|i|i k f]; cbn; rewrite ?A, ?B, ?C; destruct i; reflexivity. Qed.
+
+(* the code before the repair: an EOF status keeps its extent and _prefetch_done stays false; with the
+   wire idle the reader then waits forever, whatever the environment does *)
+Definition stuck_v0 : state := mkState [] [(1, (600, 10))] false true true 0 0 [] [] [] [] 2.
+
+Lemma v0_reaches_stuck :
+  async_response_v0 [] [(1, (600, 10))] false false 1 REof = Some ([], [(1, (600, 10))], false, true) /\
+  async_response [] [(1, (600, 10))] false false 1 REof = Some ([], [], true, false).
+Proof. split; reflexivity. Qed.
+
+Lemma v0_wait_forever file sched : snd (wait_loop file sched stuck_v0) = WBlocked.
+Proof.
+  induction sched as [|l r IH]; [reflexivity|].
+  cbn [wait_loop]. change (data_in_buffers (data stuck_v0) (realpos stuck_v0)) with (@None Z).
+  change (pdone stuck_v0) with false. cbv iota. rewrite env_idle by reflexivity. exact IH.
 Qed.
